@@ -647,6 +647,23 @@ fn path_step(cx: &Ctx, s: &Settings, path: &str, v: &Value, pclass: &'static str
             match got {
                 Err(p) => out.violation(format!("get_value|{pclass}|{vclass}|panic"), format!("panic: {p}"), wit(json!(null))),
                 Ok(Ok(g)) if norm_eq(v, &g, &mut norms) => {
+                    // "object completed with defaults" must really be *defaults*: the members the caller did not
+                    // supply may not depend on what was stored at the path before (metamorphic check against the
+                    // same call on fresh default settings)
+                    if norms.contains(&"object-completed-with-defaults") {
+                        if let Ok(Ok(fresh)) = report::catch_sdk(|| Settings::new().with_value(path, v.clone()).and_then(|f| f.get_value::<Value>(path))) {
+                            if let (Value::Object(vo), Value::Object(go), Value::Object(fo)) = (v, &g, &fresh) {
+                                let differs: Vec<&String> = go.keys().filter(|k| !vo.contains_key(*k) && go.get(*k) != fo.get(*k)).collect();
+                                if !differs.is_empty() {
+                                    out.violation(
+                                        format!("with_value|{pclass}|object|members-not-supplied-keep-previous-value"),
+                                        format!("with_value('{path}', {}) reads back {} but the same call on default settings reads back {}: members {:?} were not supplied and kept their previous values", short(v), short(&g), short(&fresh), differs),
+                                        wit(json!({"read": short(&g), "read_on_defaults": short(&fresh)})),
+                                    );
+                                }
+                            }
+                        }
+                    }
                     norms.sort();
                     norms.dedup();
                     for n in &norms {
